@@ -1438,6 +1438,65 @@ pub fn gen_arc_drop_order(rng: &mut Rng) -> Program {
     p
 }
 
+/// One acquire fence after several relaxed loads of the same atomic: the fence synchronises with
+/// every release store the thread has read from, not only the latest. Writers publish their own
+/// cell (or relaxed data atomic) and release-store their own value to a shared flag; the reader
+/// loads the flag several times, fences once and then reads the data of every writer whose value
+/// it saw. (`cells`: data in UnsafeCells - a false race report shows a lost edge; otherwise relaxed
+/// atomics - a stale read is an invalid execution.) One in four readers has no fence: then the
+/// cell reads are real races.
+pub fn gen_fence_multi(rng: &mut Rng, cells: bool) -> Program {
+    let mut vs = ValueSrc::new();
+    // (two writers: three stores and three loads on one location from four threads exceed the cap)
+    let nw = 2;
+    let mut p = Program { atomics: vec![0; if cells { 1 } else { 1 + nw }], n_cell: if cells { nw as u8 } else { 0 }, ..Default::default() };
+    let fenced = !cells || !rng.chance(1, 4);
+    let mut vals = Vec::new();
+    let mut writers = Vec::new();
+    for i in 0..nw {
+        let v = vs.constant();
+        vals.push(v);
+        let data = if cells { Op::CWrite { c: i as u8, v: vs.constant() } } else { Op::Store { a: (1 + i) as u8, v: vs.constant(), o: MO::Rlx } };
+        let publish = if rng.chance(1, 3) {
+            vec![Op::Fence { o: MO::Rel }, Op::Store { a: 0, v, o: MO::Rlx }]
+        } else {
+            vec![Op::Store { a: 0, v, o: MO::Rel }]
+        };
+        let mut w = vec![data];
+        w.extend(publish);
+        writers.push(w);
+    }
+    let n_loads = if cells && rng.chance(1, 4) { 3 } else { 2 };
+    let mut r: Vec<Op> = Vec::new();
+    for _ in 0..n_loads {
+        r.push(Op::Load { a: 0, o: MO::Rlx });
+    }
+    if fenced {
+        r.push(Op::Fence { o: if rng.chance(3, 4) { MO::Acq } else { MO::AcqRel } });
+    }
+    for k in 0..n_loads {
+        for i in 0..nw {
+            let read = if cells { Op::CRead { c: i as u8 } } else { Op::Load { a: (1 + i) as u8, o: MO::Rlx } };
+            r.push(Op::If { pc: k as u8, eq: vals[i], then: Box::new(read) });
+        }
+    }
+    // the reader is a spawned thread (main only coordinates), placed at a random position
+    let mut bodies = writers;
+    let pos = rng.below(bodies.len() + 1);
+    bodies.insert(pos, r);
+    let mut t0 = Vec::new();
+    for t in 1..=bodies.len() {
+        t0.push(Op::Spawn { t: t as u8 });
+    }
+    for t in 1..=bodies.len() {
+        t0.push(Op::Join { t: t as u8 });
+    }
+    let mut threads = vec![t0];
+    threads.extend(bodies);
+    p.threads = threads;
+    p
+}
+
 /// park / unpark as message passing: the parked thread looks at data afterwards; one unparker
 /// publishes before it unparks, another one unparks without publishing (so that returning from
 /// `park` must synchronise with exactly the unpark that woke it, in every iteration anew).
